@@ -20,7 +20,7 @@ CHECKS = {
             "DESIGN.md 2/C10"),
     "C19": ("interval evaluation under dominating guards (bounded subscripts, assert-precondition discharge), dominance of length/index validation over member writes, finite-domain constant folding of the parameter constructors and checks (efforts 1..9)",
             "Input validation decided structurally for all argument values: array subscripts and asserting helpers are reached only under throwing "
-            "range guards; every vector length and pin index is validated by throw before any member is written; params.check() comes first; the parameters constructed for each effort 1..9 reach no throw of their own check (binary32/binary64 kept apart).",
+            "range guards; every vector length and pin index is validated by throw before any member is written; a PlacementSolution is read only after its size was checked; no validation reads an already overwritten member; params.check() comes first; the parameters constructed for each effort 1..9 reach no throw of their own check (binary32/binary64 kept apart).",
             "Trusted: clang 14 front end; interval evaluator in cqverif/intervals.py; constant folder in cqverif/consteval.py (libm semantics of round/exp/log as in Python's math). Not decided: exception type/message; row geometry validation.",
             "DESIGN.md 2/C19"),
     "C08": ("zero-instance rules with positive controls (static storage, const_cast, mutable members judged by the cache discipline, entropy sources, clock taint), async-launch discipline, unordered-iteration and read-back reachability analysis",
@@ -36,12 +36,12 @@ CHECKS = {
             "DESIGN.md 2/C17"),
     "C09": ("exhaustive table extraction (symbolic constant propagation over the orientation dispatch), structural loop-coverage / must-pass-through analysis, who-may-write",
             "The 'for every cell orientation' clause is decided exhaustively: the 8x5 orientation table computed from the AST equals the DEF transform table with symbolic sizes and offsets. "
-            "hpwl covers every pin on its own axis; the incremental model recomputes every net of a moved cell and keeps bounds and value in step.",
+            "hpwl covers every pin on its own axis; the incremental model recomputes every net of a moved cell and keeps bounds and value in step; per-net accumulators are reset per net, nets are dropped only for having fewer than two pins, and the builders read placed geometry.",
             "Trusted: clang 14 front end; rules/orientation_spec.json (DEF semantics as documented in coloquinte.hpp). Not decided: equality over whole update histories; int overflow (C07).",
             "DESIGN.md 2/C09"),
     "C04": ("exhaustive table extraction of the polarity/orientation functions, edge-dominance analysis of admission predicates and commits, witness-variable provenance",
             "The orientation tables are decided exhaustively (50 cells) against the specification; every admission predicate of legalization and detailed placement "
-            "admits a (cell,row) pair only under an orientation-compatibility test of that pair; commits use only admitted candidates; orientation stores come from the row the cell is placed on; the checker rejects INVALID.",
+            "admits a (cell,row) pair only under an orientation-compatibility test of that pair; commits use only admitted candidates; orientation stores come from the row the cell is placed on; cells without polarity keep their orientation; the circuit's polarities reach the models unchanged; the checker rejects INVALID.",
             "Trusted: clang 14 front end; rules/orientation_spec.json; the list of admission predicates in cqverif/rules/c04.py. Not decided: which admissible row is chosen.",
             "DESIGN.md 2/C04"),
     "C20": ("name-correspondence analysis of the clang-resolved binding table (module.cpp parsed against a pybind11 stub and the real header), Python ast receiver typing, writer/reader key and expression-shape agreement",
@@ -56,12 +56,12 @@ CHECKS = {
             "DESIGN.md 2/C14"),
     "C07": ("producer/consumer bit-width contradiction rules, implicit 64->32 narrowing and fold-accumulator width rules, triaged inventory of 32-bit products (rename-proof shape keys), may-be-minus-one taint to subscripts, interval proof of loop steps; positive controls",
             "Structural no-overflow / no-crash clauses decided for the whole library: no int product is widened after the fact, no 64-bit cost, area or demand is implicitly narrowed, folds accumulate at element width, every 32-bit product of two variables carries a bound argument, "
-            "last-element indices cannot reach a subscript for an empty container, computed loop steps are non-zero.",
+            "last-element indices cannot reach a subscript for an empty container, computed loop steps are non-zero, no assertion excludes a sentinel both sides may hold, parameter fields are forwarded to their namesakes, and the global placer's vectors are assigned before a step reads them.",
             "Trusted: clang 14 front end; the triage tables in rules/c07.json. Declined: general out-of-bounds freedom, assertion unreachability, division by zero, termination of numeric iterations.",
             "DESIGN.md 2/C07"),
     "C15": ("edge-dominance analysis of the obstacle filter, qualifier typing (geometry frame, axis, min/max argument roles), soundness check of obstacle skips, slicing-direction agreement, row provenance",
             "Decides which cells count as obstacles (fixed AND obstruction, placed footprint, extras kept), that every row is reduced by every obstacle and only full-height segments with the row's orientation are emitted, "
-            "that geometry helpers never mix frames or axes, and that every algorithm builder consumes the obstruction-free rows.",
+            "that geometry helpers never mix frames or axes, that the per-cell vectors it reads are length-checked by their setters, and that every algorithm builder consumes the obstruction-free rows.",
             "Trusted: clang 14 front end; name-based axis seeds (min/max, X/Y, width/height). Declined: the set equality itself (semantics of boost::polygon's set difference).",
             "DESIGN.md 2/C15"),
     "C18": ("who-may-write + edge-dominance guard analysis; path counting in the per-cell loop; inequality proving from dominating guards (order prover) for the non-narrowing clause; container-use classification; derived-state analysis",
@@ -71,17 +71,17 @@ CHECKS = {
             "DESIGN.md 2/C18"),
     "C01": ("must-pass-through / dominance analysis of the legalization skeleton, witness-variable provenance of commits, who-may-write, row provenance, derived-state (cache) invalidation analysis",
             "Decides the 'fails loudly / nothing partial / only free, admitted space is consumed' skeleton for every circuit: completeness check last, export after a successful run, commits only of admitted (cell,row) candidates with a space test, "
-            "rows taken from the obstruction-free computation, Tetris space bookkeeping under a two-sided overlap test, index bookkeeping in step, no stale cached free space.",
+            "rows taken from the obstruction-free computation, Tetris space bookkeeping under a two-sided overlap test, index bookkeeping in step, no stale cached free space, every strip of a multi-row cell marked, and the width/height exchange of turned cells consistent with the frame (placed vs raw) of the sizes the legalizer was given.",
             "Trusted: clang 14 front end. Declined: geometric legality of the Abacus/Tetris arithmetic; 'never fails when trivial'.",
             "DESIGN.md 2/C01"),
     "C02": ("who-may-write, edge-dominance of mutations by feasibility predicates, witness provenance of moves, geometry-frame typing of the model builders, obstacle-list filter analysis",
             "Decides that the row lists are only mutated through validated primitives, only for candidates evaluated feasible (including row polarity), that the model is built from placed geometry and never treats fixed cells as extra obstacles, "
-            "and that exposed states are exported before the user callback.",
+            "that exposed states are exported before the user callback, that positions found in a sorted copy of the rows never index the original, and that the reordering tests a region's capacity with the candidate included.",
             "Trusted: clang 14 front end. Declined: LP semantics of the shift pass; arithmetic of the centring formulas over all move sequences.",
             "DESIGN.md 2/C02"),
     "C05": ("witness provenance + direction of acceptance comparisons, probe-restore pairing (post-dominance), model/placement synchronisation pairing, loop-coverage of the shift model, derived-state freshness (call-graph reachability)",
             "Decides that moves are committed only when their evaluated value improved on the value at entry, that probes are undone, that every committed change re-synchronises the incremental models, that reordering evaluates and keeps candidates on up-to-date models, "
-            "and that the shift model covers every pin. Reports the stale-pin-offset defect of the pinned tree as a known finding.",
+            "that the shift model covers every pin, that committed positions are computed in the probed state, that no pass reads coordinates back from the Circuit and the incremental models are built in the placed frame. Reports the stale-pin-offset defect of the pinned tree as a known finding.",
             "Trusted: clang 14 front end. Declined: that the shift LP optimum never worsens the value; numeric equality with Circuit::hpwl() (C09).",
             "DESIGN.md 2/C05"),
     "C06": ("polynomial normal-form comparison of the blend / export / spreading formulas, guard analysis of shortcuts, argument provenance, axis typing, X/Y twin agreement, cell-conservation analysis of the bin hierarchy (effect summaries of conditions, clear-to-refill reachability)",
@@ -91,7 +91,7 @@ CHECKS = {
             "DESIGN.md 2/C06"),
     "C12": ("edge-dominance of state mutations by the update flag, reachability analysis of save/restore of popped bounds, sign-region consistency of the tie selector, inequality proving of bound positions (order prover), derived-state analysis",
             "Decided for every call: a cost prediction (getCost) leaves bounds, constrainingPos_ and cumWidth_ unchanged; the final-position choice is consistent with the loop's descent test (ties stay at the last bound passed); "
-            "every new bound is pushed at a position >= begin_; a cached placement is reset by every updating path.",
+            "every new bound is pushed at a position >= begin_; a cached placement is reset by every updating path; clear() restores the constructor's values.",
             "Trusted: clang 14 front end; asserts of the function are used as stated invariants. Declined: order, overlap, containment, optimality and cost exactness beyond these necessary conditions (numerical).",
             "DESIGN.md 2/C12"),
     "C16": ("who-may-write, post-dominance pairing of the two allocation representations, reachability analysis of empty-then-refill, loop coverage, X/Y twin agreement, index-level discipline and index-origin taint",
